@@ -83,7 +83,7 @@ def build_lib(variant):
         return hh, d, lib
     # drop stale trees (disk is limited)
     for old in glob.glob(os.path.join(BUILD, "*")):
-        if os.path.basename(old) not in (hh, "run") and os.path.isdir(old):
+        if os.path.basename(old) not in (hh, "run") and os.path.isdir(old) and time.time() - os.path.getmtime(old) > 3 * 3600:
             shutil.rmtree(old, ignore_errors=True)
     os.makedirs(d, exist_ok=True)
     config_header(d)
